@@ -92,7 +92,7 @@ def rewrite_old(expr, olds):
     return out
 
 
-def gen_wrapper(fn, head, params, clauses):
+def gen_wrapper(fn, head, params, clauses, mode="native"):
     ps = split_params(params)
     names = [param_name(p) for p in ps]
     ret = re.sub(r"\b(static|inline|extern)\b", "", head).strip()
@@ -101,7 +101,8 @@ def gen_wrapper(fn, head, params, clauses):
     ens = []
     # quantified clauses have no plain-C reading: the harness establishes them
     # natively by construction (ghost traces are computed from the spec)
-    clauses = [(k, e) for k, e in clauses if "__CPROVER_forall" not in e and "__CPROVER_exists" not in e]
+    if mode != "cbmc":
+        clauses = [(k, e) for k, e in clauses if "__CPROVER_forall" not in e and "__CPROVER_exists" not in e]
     for kind, e in clauses:
         if kind == "ensures":
             ens.append((e, rewrite_old(e, olds).replace("__CPROVER_return_value", "verif_ret")))
@@ -109,7 +110,10 @@ def gen_wrapper(fn, head, params, clauses):
     L.append("static %s verif_checked_%s(%s)\n{" % (ret, fn, params if ps else "void"))
     for kind, e in clauses:
         if kind == "requires":
-            L.append("  if (!(%s)) verif_spurious(%s);" % (e, json.dumps(" ".join(e.split())[:200])))
+            if mode == "cbmc":
+                L.append("  __CPROVER_assume(%s);" % e)
+            else:
+                L.append("  if (!(%s)) verif_spurious(%s);" % (e, json.dumps(" ".join(e.split())[:200])))
     for i, e in enumerate(olds):
         L.append("  __typeof__(%s) verif_old_%d = (%s);" % (e, i, e))
     call = "%s(%s)" % (fn, ", ".join(names))
@@ -118,7 +122,10 @@ def gen_wrapper(fn, head, params, clauses):
     else:
         L.append("  %s verif_ret = %s;" % (ret, call))
     for raw, e in ens:
-        L.append("  if (!(%s)) verif_fail(%s);" % (e, json.dumps("ensures violated: " + " ".join(raw.split())[:300])))
+        if mode == "cbmc":
+            L.append("  __CPROVER_assert(%s, %s);" % (e, json.dumps("ensures (bounded fallback): " + " ".join(raw.split())[:200])))
+        else:
+            L.append("  if (!(%s)) verif_fail(%s);" % (e, json.dumps("ensures violated: " + " ".join(raw.split())[:300])))
     if not isvoid:
         L.append("  return verif_ret;")
     L.append("}")
@@ -266,6 +273,34 @@ def inputs_to_text(inputs):
     return "\n".join(lines) + "\n"
 
 
+def extract_contract(t, scratch, tier, here, defs, outdir, native_mode=True):
+    """preprocess the proof unit and return find_contract() of the enforced function"""
+    root = os.path.join(scratch, "repo")
+    fn = t["enforce"]
+    inc = ["-I" + os.path.join(here, "include"), "-I" + here, "-I" + os.path.join(root, "include"),
+           "-I" + os.path.join(scratch, "gen"), "-I" + os.path.join(root, "src")]
+    pre = (["#define VERIF_NATIVE 1"] if native_mode else []) + ['#include "verif.h"']
+    for i_ in t.get("pre", []):
+        pre.append('#include "%s"' % i_)
+    for s_ in t["sources"]:
+        pre.append('#include "%s"' % os.path.join(root, s_))
+    pre.append("int verif_contracts_begin_marker;")
+    for c in t.get("contracts", []):
+        pre.append('#include "%s"' % c)
+    prec = os.path.join(outdir, "pre.c")
+    open(prec, "w").write("\n".join(pre) + "\n")
+    pp = subprocess.run(["gcc", "-E", "-P", "-std=gnu99"] + inc + defs + ["-DVERIF_TIER_%s" % tier.upper(), prec],
+                        capture_output=True, text=True)
+    if pp.returncode != 0:
+        raise RuntimeError("preprocessing failed: " + pp.stderr[-1500:])
+    text = pp.stdout
+    k = text.find("verif_contracts_begin_marker")
+    found = find_contract(text[k:], fn)
+    if not found:
+        raise RuntimeError("contract of %s not found in %s" % (fn, t.get("contracts")))
+    return found
+
+
 def build_driver(t, scratch, tier, here, defs, unit_text, outdir):
     root = os.path.join(scratch, "repo")
     fn = t.get("enforce")
@@ -297,8 +332,8 @@ def build_driver(t, scratch, tier, here, defs, unit_text, outdir):
             raise RuntimeError("contract of %s not found in %s" % (fn, t.get("contracts")))
         wrapper = gen_wrapper(fn, *found)
     lines = ["#define VERIF_NATIVE 1", SHIM, '#include "verif.h"', RUNTIME, "VERIF_GHOSTS"]
-    for inc in t.get("pre", []):
-        lines.append('#include "%s"' % inc)
+    for pre_ in t.get("pre", []):
+        lines.append('#include "%s"' % pre_)
     for s in t["sources"]:
         p = os.path.join(root, s)
         # native build uses the pristine text (loop-contract insertions removed)
